@@ -22,6 +22,10 @@ var CmdTestDownstreamFragmentSize = Command{
 type TestDownstreamFragmentSizeRequest struct {
 	UserId       uint16
 	FragmentSize uint32
+	// Padding is the number of filler characters added to the query name. An answer repeats the query name (in the
+	// question and in every answer record), so a probe should be asked with a name as long as data queries use.
+	// The filler is not a value: the receiver ignores it.
+	Padding int
 }
 
 func (vr *TestDownstreamFragmentSizeRequest) Command() Command {
@@ -34,7 +38,12 @@ func (vr *TestDownstreamFragmentSizeRequest) Encode(e enc.Encoder) ([]byte, erro
 	if err := binary.Write(data, binary.LittleEndian, &vr.FragmentSize); err != nil {
 		return nil, err
 	}
-	return append(hostname, enc.Base32Encoding.Encode(data.Bytes())...), nil
+	hostname = append(hostname, enc.Base32Encoding.Encode(data.Bytes())...)
+	// whole groups of eight Base32 characters keep the name decodable; 'a' stands for zero bits
+	for i := 0; i+8 <= vr.Padding; i += 8 {
+		hostname = append(hostname, "aaaaaaaa"...)
+	}
+	return hostname, nil
 }
 
 func (vr *TestDownstreamFragmentSizeRequest) Decode(e enc.Encoder, req []byte) error {
